@@ -37,10 +37,26 @@ static int f11() {
     return 0;
 }
 
+// C05M (findings/C05-loop-edge-multiplicity.md): vertex->vertices / vertex->edges enumerate once per outgoing halfedge, so a
+// neighbour joined by two parallel edges (or a loop edge) is visited twice
+static int c05m() {
+    TopologyKernel m;
+    m.add_vertex(); m.add_vertex();
+    m.add_edge(VertexHandle(0), VertexHandle(1)); m.add_edge(VertexHandle(0), VertexHandle(1), true);
+    std::vector<int> vv, ve;
+    for (auto it = m.vv_iter(VertexHandle(0)); it.valid(); ++it) vv.push_back(it->idx());
+    for (auto it = m.ve_iter(VertexHandle(0)); it.valid(); ++it) ve.push_back(it->idx());
+    bool holds = vv.size() == 1;      // the neighbour set of vertex 0 is {1}
+    std::printf("%s vv_iter(v0) visits %zu entries (neighbour set {1}); ve_iter(v0) visits %zu entries (edges {0,1})\n",
+                holds ? "NOT-REPRODUCED" : "REPRODUCED", vv.size(), ve.size());
+    return 0;
+}
+
 int main(int argc, char** argv) {
     if (argc < 2) { std::fprintf(stderr, "usage: probes <id>\n"); return 2; }
     if (!std::strcmp(argv[1], "C09J")) return c09j();
     if (!std::strcmp(argv[1], "F11")) return f11();
+    if (!std::strcmp(argv[1], "C05M")) return c05m();
     std::fprintf(stderr, "unknown probe %s\n", argv[1]);
     return 2;
 }
